@@ -4,6 +4,7 @@
 -/
 import PegtlVerif.Model.Run
 import PegtlVerif.Spec.Peg
+import PegtlVerif.Lemmas.WftCheck
 
 open Pegtl
 
@@ -173,6 +174,9 @@ def step (ds : DState) (line : String) : DState × List String :=
     | none => (ds, [s!"BAD node {line}"])
   | ["F", f, id, k, b, v, t, s] =>
     ({ ds with fams := setFam ds.fams (nat! f) (nat! id) (parseAct [k, b, v, t, s]) }, [])
+  | ["W", gid] =>
+    let cx : Ctx := { g := ds.g, inp := #[], fams := ds.fams }
+    (ds, [s!"W {gid} {if wftCheck cx then 1 else 0}"])
   | "C" :: rest => (ds, runCase ds rest)
   | "SEM" :: rest => (ds, semCase ds rest)
   | [] => (ds, [])
